@@ -18,7 +18,23 @@ vars == <<stage, f, g, h, op, aff, sched, hist>>
 View == <<stage, f, g, h, op, aff, sched>>
 None == [none |-> TRUE]
 
-FSet == TreesN(NF, PredSet(PF), TermSet(TF), K)
+\* reduce: a decision below the root whose two children are decisions that both collapse (cascading merges over two levels),
+\* terminals from the first two elements of TF so that merges happen at some levels and not at others
+CascadeTrees ==
+    LET ts == TermSet(TF)
+        pr == CHOOSE x \in PredSet(PF) : TRUE
+        L(a) == Leaf(a)
+    IN UNION {{Dec(pr, <<L(t0), Dec(pr, <<Dec(pr, <<L(t1), L(t2)>>), Dec(pr, <<L(t3), L(t4)>>)>>)>>),
+               Dec(pr, <<Dec(pr, <<Dec(pr, <<L(t1), L(t2)>>), Dec(pr, <<L(t3), L(t4)>>)>>), L(t0)>>)}
+              : t0 \in ts, t1 \in ts, t2 \in ts, t3 \in ts, t4 \in ts}
+\* pruned composition: partial operands with a one-child decision next to a two-child decision (both orientations)
+PartialDeep ==
+    LET tm == CHOOSE a \in TermSet(TG) : TRUE
+        Lf(k) == Leaf([tm EXCEPT !.b = [i \in 1..Len(tm.b) |-> IF i = 1 THEN 10 * k ELSE tm.b[i]]])
+    IN UNION {{Dec(p0, <<Dec(p1, <<Lf(1), Missing>>), Dec(p2, <<Lf(2), Lf(3)>>)>>), Dec(p0, <<Dec(p1, <<Missing, Lf(1)>>), Dec(p2, <<Lf(2), Lf(3)>>)>>),
+               Dec(p0, <<Dec(p2, <<Lf(2), Lf(3)>>), Dec(p1, <<Lf(1), Missing>>)>>), Dec(p0, <<Dec(p2, <<Lf(2), Lf(3)>>), Dec(p1, <<Missing, Lf(1)>>)>>)}
+              : p0 \in PredSet(PG), p1 \in PredSet(PG), p2 \in PredSet(PG)}
+FSet == TreesN(NF, PredSet(PF), TermSet(TF), K) \cup (IF MODE = "reduce" /\ NG = 1 THEN CascadeTrees ELSE {})
 GSetAll == TreesN(NG, PredSet(PG), TermSet(TG), K)
 \* "arithdeep": deep total right operands (paths of different length below the grafted root), + and - only
 \* unbalanced total operands: one branch of the root is one level deeper than the other (both orientations), every predicate from PG
@@ -29,7 +45,7 @@ DeepTrees ==
     IN UNION {{Dec(p0, <<Dec(p1, <<Lf(1), Lf(2)>>), Dec(p2, <<Lf(3), Dec(p3, <<Lf(4), Lf(5)>>)>>)>>),
                Dec(p0, <<Dec(p2, <<Dec(p3, <<Lf(4), Lf(5)>>), Lf(3)>>), Dec(p1, <<Lf(1), Lf(2)>>)>>)}
               : p0 \in PredSet(PG), p1 \in PredSet(PG), p2 \in PredSet(PG), p3 \in PredSet(PG)}
-GSet == IF MODE = "arithdeep" THEN DeepTrees ELSE GSetAll
+GSet == IF MODE = "arithdeep" THEN DeepTrees ELSE IF MODE = "prunedeep" THEN PartialDeep ELSE GSetAll
 Ops == CASE MODE = "compose" -> {"compose"}
          [] MODE = "arith" -> {"add", "sub", "mul", "div"}
          [] MODE = "arithdeep" -> {"add", "sub"}
@@ -38,6 +54,7 @@ Ops == CASE MODE = "compose" -> {"compose"}
          [] MODE = "prune" -> {"eliminate"}
          [] MODE = "pruneg" -> {"compose_prune", "elim_compose_elim", "compose_rhs_elim"}
          [] MODE = "prunea" -> {"elim_add", "elim_sub", "add_rhs_elim"}
+         [] MODE = "prunedeep" -> {"compose_prune"}
          [] OTHER -> {}
 
 Init == stage = "init" /\ f = None /\ g = None /\ h = None /\ op = "" /\ aff = None /\ sched = <<>> /\ hist = None
@@ -51,12 +68,12 @@ PickF == \E x \in FSet, lay \in LAYOUTS :
 GOf(x) == IF MODE \in {"pruneg", "prunea"} THEN DistinctLeaves(x, 1) ELSE x
 PickG == \E y \in GSet :
     LET x == GOf(y) IN
-    /\ stage = "f" /\ MODE \in {"compose", "arith", "arithdeep", "pruneg", "prunea"}
+    /\ stage = "f" /\ MODE \in {"compose", "arith", "arithdeep", "pruneg", "prunea", "prunedeep"}
     /\ g' = [abs |-> x, lay |-> "dfs", t |-> BuildTree(x, K, "dfs")]
     /\ stage' = "fg" /\ UNCHANGED <<f, h, op, aff, sched, hist>>
 Apply == \E o \in Ops :
     /\ \/ (stage = "fg" /\ MODE \in {"compose", "arith", "arithdeep"}) \/ (stage = "f" /\ MODE = "reduce")
-       \/ (stage = "f" /\ MODE = "prune") \/ (stage = "fg" /\ MODE \in {"pruneg", "prunea"})
+       \/ (stage = "f" /\ MODE = "prune") \/ (stage = "fg" /\ MODE \in {"pruneg", "prunea", "prunedeep"})
     /\ op' = o
     /\ h' = CASE o = "compose" -> Compose(f.t, g.t)
               [] o \in {"add", "sub", "mul", "div"} -> Arith(o, f.t, g.t)
@@ -179,24 +196,29 @@ Expected == CASE op = "eliminate" -> PF0
               [] op = "add_rhs_elim" -> LiftPieces("add", PF0, PG0)
               [] op = "elim_add" -> LiftPieces("add", PF0, PG0)
               [] op = "elim_sub" -> LiftPieces("sub", PF0, PG0)
-LawPrune == (stage = "done" /\ MODE \in {"prune", "pruneg", "prunea"}) => PwlEqUpToThin(PH0, Expected, D)
+LawPrune == (stage = "done" /\ MODE \in {"prune", "pruneg", "prunea", "prunedeep"}) => PwlEqUpToThin(PH0, Expected, D)
 \* C05: cached witnesses lie in the closed path region; nodes marked infeasible have no interior
 CacheSound(t) ==
     \A i \in Occ(t) \ {t.root} :
         /\ t.nodes[i].st = "W" => \A j \in 1..Len(t.nodes[i].w) : SatAll(ClosedRegion(t, i), t.nodes[i].w[j], 2)
         /\ t.nodes[i].st = "X" => ~HasInterior(ClosedRegion(t, i), t.dim)
-LawCache == (stage = "done" /\ MODE \in {"prune", "pruneg", "prunea"}) => CacheSound(h)
+LawCache == (stage = "done" /\ MODE \in {"prune", "pruneg", "prunea", "prunedeep"}) => CacheSound(h)
 \* C06: on total trees elimination is effective and idempotent
 TotalTree(t) == \A i \in Occ(t) : ~t.nodes[i].leaf => \A sl \in 1..t.k : t.nodes[i].ch[sl] # NONE
-LawEffective == (stage = "done" /\ MODE \in {"prune", "pruneg", "prunea"} /\ op \in {"eliminate", "elim_compose_elim", "compose_rhs_elim"} /\ TotalTree(f.t) /\ (op = "eliminate" \/ TotalTree(g.t))) =>
+LawEffective == (stage = "done" /\ MODE \in {"prune", "pruneg", "prunea", "prunedeep"} /\ op \in {"eliminate", "elim_compose_elim", "compose_rhs_elim"} /\ TotalTree(f.t) /\ (op = "eliminate" \/ TotalTree(g.t))) =>
     /\ \A i \in Occ(h) \ {h.root} : Feas(ClosedRegion(h, i), D)
     /\ \A i \in Occ(h) \ {h.root} : ~h.nodes[i].leaf => NumChildren(h.nodes[i]) # 1
     /\ ObsTree(Eliminate(h)) = ObsTree(h)
 \* C11: under any fault plan the function is unchanged, caches stay sound, the tree is well-formed and only less is pruned
+\* "only less pruning" is read as: nothing that an input can take is lost - a node missing from the result although the
+\* fault-free run keeps it lies on a path without interior (the fault-free run may keep such a node only because it is the last
+\* child of its decision)
+RECURSIVE ThinAncM(_, _)
+ThinAncM(t, i) == ~HasInterior(ClosedRegion(t, i), t.dim) \/ (t.nodes[i].p # NONE /\ ThinAncM(t, t.nodes[i].p))
 LawFault == (stage = "done" /\ MODE = "fault") =>
     /\ PwlEqUpToThin(PH0, PF0, D)
     /\ CacheSound(h)
-    /\ Occ(Eliminate(f.t)) \subseteq Occ(h)
+    /\ \A i \in Occ(Eliminate(f.t)) \ Occ(h) : ThinAncM(f.t, i)
 \* C09: the closed path polytope reported for a node (what PolyhedraGen builds) contains the node's routing region, and its
 \* interior is routed through the node; distinct terminals have disjoint interiors
 LawRegions == (stage = "done" /\ MODE = "regions") =>
@@ -258,7 +280,7 @@ Emit ==
                                                        rhs |-> ScriptOf(Dec(P(<<1, 0>>, 0), <<Leaf(Aff(<<<<1, 0>>, <<0, 1>>>>, <<0, 0>>)),
                                                                                                Leaf(Aff(<<<<0, 0>>, <<0, 1>>>>, <<0, 0>>))>>), K, "dfs")]>>,
                                           faults |-> <<>>, faultsweep |-> NG]))
-        ELSE IF MODE \in {"prune", "pruneg", "prunea"}
+        ELSE IF MODE \in {"prune", "pruneg", "prunea", "prunedeep"}
         THEN PrintT("SCRIPT " \o ToJson([fam |-> "afftree", k |-> K, q |-> 1, mode |-> "history", lhs |-> ScriptOf(f'.abs, K, f'.lay),
                                           steps |-> HistorySteps, faults |-> <<>>, exp |-> [root |-> h'.root, nodes |-> ObsSeq(h')]]))
         ELSE
